@@ -828,7 +828,8 @@ package spec
 //@    wfResolver(r) && r.options == o && r.cache == c && r.context == x && r.options.ContinueOnError == coe && r.options.SkipSchemas == skip && r.options.AbsoluteCircularRef == abs
 
 // the object a reference is decoded into is separate from the loader's own objects and from the stack of parent refs
-//@ define sepFrom(p ptr, r *schemaLoader, parentRefs []string) bool = obase(p) != obase(r) && obase(p) != obase(r.options) && obase(p) != obase(r.context) && obase(p) != obase(sliceArr(parentRefs))
+// (the loader's own objects are outside every region by construction, see machineryPartition in govc)
+//@ define sepFrom(p ptr, r *schemaLoader, parentRefs []string) bool = obase(p) != obase(sliceArr(parentRefs)) || sliceArr(parentRefs) == nil
 
 // the Ref field of the element handed to deref
 //@ define derefRefOf(input interface{}) *Ref = holds(input, "*Schema") ? &asPtr(input, "*Schema").Ref : (holds(input, "*Parameter") ? &asPtr(input, "*Parameter").Ref : (holds(input, "*Response") ? &asPtr(input, "*Response").Ref : &asPtr(input, "*PathItem").Ref))
@@ -1013,3 +1014,48 @@ package spec
 //@   ensures  loaders-immutable @@ forall l *schemaLoader :: allocated(l) ==> l.root == old(l.root) && l.options == old(l.options) && l.cache == old(l.cache) && l.context == old(l.context)
 //@ specfn nilStrings() []string
 //@ axiom sliceArr(nilStrings()) == nil
+
+//@ func expandOperation
+//@   strings  uninterpreted
+//@   property C04, C08, C03, C18
+//@   requires wfResolver(resolver) && canonBase(basePath)
+//@   ensures  kept @@ loaderKept(resolver, old(resolver.options), old(resolver.cache), old(resolver.context), old(resolver.options.ContinueOnError), old(resolver.options.SkipSchemas), old(resolver.options.AbsoluteCircularRef))
+//@   ensures  [C08] failures-monotone @@ failures >= old(failures)
+//@   ensures  [C08] strict-propagates @@ old(strict(resolver)) && failures > old(failures) ==> result != nil
+//@   ensures  [C08] no-spurious-error @@ result != nil ==> failures > old(failures)
+//@   ensures  [C08] continue-silent @@ !old(strict(resolver)) ==> result == nil
+//@   ensures  [C18] cache-dom-monotone @@ forall u string :: old(cacheDom[u]) ==> cacheDom[u]
+//@   ensures  [C03] memo-monotone @@ forall k string :: old(has(resolver.context.circulars, k)) ==> has(resolver.context.circulars, k)
+//@   ensures  loaders-immutable @@ forall l *schemaLoader :: allocated(l) ==> l.root == old(l.root) && l.options == old(l.options) && l.cache == old(l.cache) && l.context == old(l.context)
+//@   loop 0 invariant runInv(resolver, old(resolver.options), old(resolver.cache), old(resolver.context), old(resolver.options.ContinueOnError), old(resolver.options.SkipSchemas), old(resolver.options.AbsoluteCircularRef), old(failures))
+//@   loop 0 invariant forall u string :: old(cacheDom[u]) ==> cacheDom[u]
+//@   loop 0 invariant forall k string :: old(has(resolver.context.circulars, k)) ==> has(resolver.context.circulars, k)
+//@   loop 0 invariant forall l *schemaLoader :: allocated(l) ==> l.root == old(l.root) && l.options == old(l.options) && l.cache == old(l.cache) && l.context == old(l.context)
+//@   loop 1 invariant runInv(resolver, old(resolver.options), old(resolver.cache), old(resolver.context), old(resolver.options.ContinueOnError), old(resolver.options.SkipSchemas), old(resolver.options.AbsoluteCircularRef), old(failures))
+//@   loop 1 invariant forall u string :: old(cacheDom[u]) ==> cacheDom[u]
+//@   loop 1 invariant forall k string :: old(has(resolver.context.circulars, k)) ==> has(resolver.context.circulars, k)
+//@   loop 1 invariant forall l *schemaLoader :: allocated(l) ==> l.root == old(l.root) && l.options == old(l.options) && l.cache == old(l.cache) && l.context == old(l.context)
+
+//@ func expandPathItem
+//@   strings  uninterpreted
+//@   property C04, C08, C03, C18
+//@   requires wfResolver(resolver) && canonBase(basePath)
+//@   requires pathItem != nil ==> sepFrom(pathItem, resolver, nilStrings()) && allocated(pathItem)
+//@   ensures  kept @@ loaderKept(resolver, old(resolver.options), old(resolver.cache), old(resolver.context), old(resolver.options.ContinueOnError), old(resolver.options.SkipSchemas), old(resolver.options.AbsoluteCircularRef))
+//@   ensures  [C08] failures-monotone @@ failures >= old(failures)
+//@   ensures  [C08] strict-propagates @@ old(strict(resolver)) && failures > old(failures) ==> result != nil
+//@   ensures  [C08] no-spurious-error @@ result != nil ==> failures > old(failures)
+//@   ensures  [C08] continue-silent @@ !old(strict(resolver)) ==> result == nil
+//@   ensures  [C18] cache-dom-monotone @@ forall u string :: old(cacheDom[u]) ==> cacheDom[u]
+//@   ensures  [C03] memo-monotone @@ forall k string :: old(has(resolver.context.circulars, k)) ==> has(resolver.context.circulars, k)
+//@   ensures  loaders-immutable @@ forall l *schemaLoader :: allocated(l) ==> l.root == old(l.root) && l.options == old(l.options) && l.cache == old(l.cache) && l.context == old(l.context)
+//@   loop 0 invariant sameRun(resolver, resolver0) && resolver.options == old(resolver0.options) && canonBase(basePath)
+//@   loop 0 invariant runInv(resolver0, old(resolver0.options), old(resolver0.cache), old(resolver0.context), old(resolver0.options.ContinueOnError), old(resolver0.options.SkipSchemas), old(resolver0.options.AbsoluteCircularRef), old(failures))
+//@   loop 0 invariant forall u string :: old(cacheDom[u]) ==> cacheDom[u]
+//@   loop 0 invariant forall k string :: old(has(resolver0.context.circulars, k)) ==> has(resolver0.context.circulars, k)
+//@   loop 0 invariant forall l *schemaLoader :: allocated(l) ==> l.root == old(l.root) && l.options == old(l.options) && l.cache == old(l.cache) && l.context == old(l.context)
+//@   loop 1 invariant sameRun(resolver, resolver0) && resolver.options == old(resolver0.options) && canonBase(basePath)
+//@   loop 1 invariant runInv(resolver0, old(resolver0.options), old(resolver0.cache), old(resolver0.context), old(resolver0.options.ContinueOnError), old(resolver0.options.SkipSchemas), old(resolver0.options.AbsoluteCircularRef), old(failures))
+//@   loop 1 invariant forall u string :: old(cacheDom[u]) ==> cacheDom[u]
+//@   loop 1 invariant forall k string :: old(has(resolver0.context.circulars, k)) ==> has(resolver0.context.circulars, k)
+//@   loop 1 invariant forall l *schemaLoader :: allocated(l) ==> l.root == old(l.root) && l.options == old(l.options) && l.cache == old(l.cache) && l.context == old(l.context)
